@@ -79,6 +79,9 @@ def State.init : State := ⟨[], fun _ => 0⟩
 /-- the overflow guard on the exponent: `std::min<std::size_t>(exponent, 8)` -/
 def expClamp : Nat := Gen.C24.kBackoffExponentClamp
 
+/-- the `1` of `factor = 1 << clamped_exponent` -/
+def factorBase : Nat := Gen.C24.kBackoffFactorBase
+
 /-- `base <= 0 ? 1 : base` -/
 def effBase (cfg : Cfg) : Int := if cfg.base ≤ 0 then 1 else cfg.base
 
@@ -87,7 +90,7 @@ def effBase (cfg : Cfg) : Int := if cfg.base ≤ 0 then 1 else cfg.base
 def backoffSeconds (cfg : Cfg) (k : Nat) : Int :=
   let exponent := if k > 0 then k - 1 else 0
   let clamped := min exponent expClamp
-  let backoff := effBase cfg * (2 ^ clamped : Nat)
+  let backoff := effBase cfg * (factorBase * 2 ^ clamped : Nat)
   let backoff := if cfg.maxBackoff > 0 ∧ backoff > cfg.maxBackoff then cfg.maxBackoff else backoff
   if backoff ≤ 0 then 1 else backoff
 
